@@ -65,7 +65,7 @@ def main():
             m = union_tb(json.loads(show('HEAD', f) or '{}'), json.loads(show(br, f) or '{}'))
             json.dump(m, open(os.path.join(ROOT, f), 'w'), indent=1)
             git('add', f)
-        elif f in ('MANIFEST.json', '.gitignore', 'AGENT_GUIDE.md', 'DESIGN.md'):
+        elif f in ('MANIFEST.json', '.gitignore', 'AGENT_GUIDE.md', 'DESIGN.md', 'tools/vcheck.py', 'tools/merge_branch.py'):
             git('checkout', '--ours', f)
             git('add', f)
         elif f == 'coq/_CoqProject' or f.startswith('coq/Gen/') or f.startswith('evidence/'):
